@@ -55,6 +55,13 @@ def gen_cases(rng, tier):
             if len(perms) > 120:
                 perms = rng.sample(perms, 120)
             lists += perms
+        # key lists with repeated codes: keyberon's key list holds one entry per state, so two physical keys mapped to the
+        # same modifier, or a held shift plus an S-x output chord, give the same code twice
+        for n in range(2, 6):
+            for _ in range(40):
+                l = tuple(rng.choice(universe) for _ in range(n))
+                if len(set(l)) < len(l):
+                    lists.append(l)
         h = ' | '.join(' '.join(str(CODE[k]) for k in l) for l in lists).split()
         cases.append({'id': 'c13-ovr-%d' % i, 'cfg': cfg, 'hist': h, 'sub': 'ovr', 'ovs': ovs, 'lists': lists,
                       'tags': {'kind': 'key-list', 'noverrides': len(ovs)}})
@@ -62,7 +69,7 @@ def gen_cases(rng, tier):
     for i in range(60 if tier == 'quick' else 1500):
         ovs = table(rng, rng.randint(1, 4))
         src = ['a', 's', 'd', 'f', 'g']
-        acts = ['lsft', 'lctl', rng.choice(['a', 'b', 'x']), rng.choice(['(multi a b)', 'ralt', 'y', '(multi lsft x)']), rng.choice(['1', 'lalt'])]
+        acts = ['lsft', 'lctl', rng.choice(['a', 'b', 'x']), rng.choice(['(multi a b)', 'ralt', 'y', '(multi lsft x)', 'S-a', 'lsft']), rng.choice(['1', 'lalt', 'lsft', 'C-b'])]
         cfg = '(defcfg override-release-on-activation %s)\n(defsrc %s)\n(deflayer l0 %s)\n%s' % (
             rng.choice(['yes', 'no']), ' '.join(src), ' '.join(acts), table_txt(ovs))
         hg = gen.HistGen(rng, gen.codes_of(src), [0, 1, 2, 7])
@@ -108,7 +115,7 @@ def nontrivial(case, it):
 SPEC = {
     'id': 'C13', 'sub': 'ovr', 'gen_cases': gen_cases, 'nontrivial': nontrivial, 'oracle': oracle,
     'rule': 'override tables of 1-5 entries over 5 non-modifier keys and all 8 modifiers; for each table every ordered key list of '
-            'length <= 4 over the keys it mentions (sampled above 120 per length) through the real Overrides::override_keys; plus random '
+            'length <= 4 over the keys it mentions (sampled above 120 per length) plus lists of length 2-5 with repeated codes through the real Overrides::override_keys; plus random '
             'press/release histories through the whole pipeline with override-release-on-activation on/off; non-trivial = some key removed / some output',
     'explanation': 'theorems for arbitrary tables and key lists: the chosen override matches and has the most modifiers, substitution '
                    'adds outputs and removes the combination, outside keys keep their order, no combination => list unchanged',
